@@ -167,12 +167,21 @@ func NewFunction(fn *compiler.Function) *Function {
 	// Parameter defaults
 	var defaults []Object
 	var defaultsCount int
+	// The compiler stores a default of nil and "no default" alike as a nil
+	// entry. Defaults are trailing (the compiler rejects anything else), so a
+	// nil entry after a parameter that has a default is the default nil.
+	seenDefault := false
 	for i := 0; i < fn.DefaultsCount(); i++ {
 		value := fn.Default(i)
-		if value != nil {
+		switch {
+		case value != nil:
+			seenDefault = true
 			defaultsCount++
 			defaults = append(defaults, FromGoType(value))
-		} else {
+		case seenDefault:
+			defaultsCount++
+			defaults = append(defaults, Nil)
+		default:
 			defaults = append(defaults, nil)
 		}
 	}
